@@ -1,16 +1,67 @@
-"""Concrete-input search and native replay (filled in per job kind)."""
-import os, subprocess, json
-from .driver import VERIF, REPO
+"""Concrete-input search and native replay against the real code (DESIGN.md 5.2).
 
-FINDERS = {}
+The verifier's own counterexample for a failed loop-contract obligation is the pre-state of one arbitrary
+iteration, not an input; it is stored in the replay file.  A concrete failing input is then searched with the
+native oracle (replay/oracle.c): the real functions, built from /repo's working tree with the guard OFF,
+against the same specification macros the contracts use, over enumerated / structured inputs.  A hit is
+re-run and stored; no hit => the violation is still reported, with no-failing-input-found."""
+import os, subprocess, json, glob
+from .driver import VERIF, REPO, sh
+
+KIND = {
+    'is_822_local': [('local822', [])], 'is_5321_local': [('local5321', [])], 'is_5322_local': [('local5322', [])],
+    'is_6531_local': [('local6531', [])], 'utf8_decode_next': [('local6531', [])],
+    'is_ascii_domain': [('host', [])], 'is_ipv4': [('ipv4', [])], 'is_ipv6': [('ipv6', [])], 'is_ipv6_len': [('ipv6', [])],
+    'is_ipaddr': [('email822', ['0'])],
+    'is_special_domain_A': [('special', [])], 'is_special_domain_B': [('special', [])],
+    'is_tld': [('tld', [])], 'tld_table': [('tld', [])],
+    'eav_is_email': [('policy', [])], 'eav_is_email@idn': [('policy', [])], 'eav_is_email@idnkit': [('policy', [])],
+}
+for m in ('822', '5321', '5322'):
+    for pth in ('host', 'literal'):
+        KIND['email_%s_%s' % (m, pth)] = [('email' + m, ['0']), ('email' + m, ['1'])]
+
+
+def build_oracle(work):
+    d = os.path.join(work, 'oracle')
+    exe = os.path.join(d, 'oracle')
+    if os.path.exists(exe):
+        return exe
+    os.makedirs(d, exist_ok=True)
+    srcs = sorted(glob.glob(REPO + '/src/*.c')) + sorted(glob.glob(REPO + '/partial/idn2/*.c'))
+    cmd = ['gcc', '-O1', '-w', '-D_DEFAULT_SOURCE', '-DHAVE_LIBIDN2', '-I' + REPO + '/include', '-I' + REPO,
+           '-I' + VERIF + '/spec', '-I' + work, os.path.join(VERIF, 'replay', 'oracle.c')] + srcs + ['-lidn2', '-o', exe]
+    rc, out, err, _ = sh(cmd, timeout=300)
+    if rc != 0:
+        raise RuntimeError('native oracle build failed: ' + err[-800:])
+    return exe
+
+
+def native_replay(exe, kind, input_hex, args):
+    rc, out, err, _ = sh([exe, kind, input_hex] + list(args), timeout=60)
+    return dict(disagree=(rc == 1), output=out.strip().split('\n')[-3:], exit=rc)
 
 
 def find(job, o, rec, work):
-    f = FINDERS.get(job.finder)
-    if not f:
+    kinds = KIND.get(job.name)
+    if not kinds:
         return None
-    return f(job, o, rec, work)
-
-
-def native_replay(kind, input_hex, args):
-    return {'disagree': False, 'note': 'no native oracle for ' + kind}
+    exe = build_oracle(work)
+    rec['native_search'] = []
+    for kind, args in kinds:
+        rc, out, err, s = sh([exe, 'search', kind, '7', '3000000'] + args, timeout=400)
+        line = [l for l in out.split('\n') if l.startswith('FOUND') or l.startswith('NOTFOUND')]
+        rec['native_search'].append(dict(kind=kind, args=args, result=(line[-1] if line else 'error: ' + err[-200:]), seconds=round(s, 1)))
+        if line and line[-1].startswith('FOUND'):
+            parts = line[-1].split()
+            hexs = parts[1] if parts[1] != '-' else ''
+            rargs = list(args) if parts[1] != '-' else parts[2:]
+            rp = native_replay(exe, kind, hexs, rargs)
+            try:
+                txt = bytes.fromhex(hexs).decode('utf-8', 'backslashreplace')
+            except Exception:
+                txt = ''
+            return dict(oracle_kind=kind, oracle_args=rargs, input_hex=hexs, input_text=txt,
+                        native_cmd='replay/oracle.c built against /repo (guard off): oracle %s %s %s' % (kind, hexs, ' '.join(rargs)),
+                        native_result=rp, replay_confirms=rp['disagree'])
+    return None
